@@ -69,11 +69,13 @@ func (b JsonBuildObjectBuilder) Unset(key string) JsonBuildObjectBuilder {
 }
 
 type JsonBuildObjectBuilderBuilder struct {
+	isJsonB bool
 	builder immutableSliceMap[string, Exp]
 }
 
 func (b JsonBuildObjectBuilder) Start() *JsonBuildObjectBuilderBuilder {
 	return &JsonBuildObjectBuilderBuilder{
+		isJsonB: b.isJsonB,
 		builder: b.props.clone(),
 	}
 }
@@ -85,7 +87,8 @@ func (bb *JsonBuildObjectBuilderBuilder) Prop(key string, value Exp) *JsonBuildO
 
 func (bb *JsonBuildObjectBuilderBuilder) End() JsonBuildObjectBuilder {
 	return JsonBuildObjectBuilder{
-		props: bb.builder,
+		isJsonB: bb.isJsonB,
+		props:   bb.builder,
 	}
 }
 
